@@ -63,6 +63,10 @@ def gen_search_patterns(rng, tree, vpattern, pep_ok, count, first_marker, allow_
     is_legacy = rl.is_legacy(vpattern)
     if is_legacy:
         names = ["{%s}" % n[2:] for n in names if rp.PARTS[n][0] not in ("tag",)]
+        fields = set(rp.fields_of(tree))
+        if "year_y" in fields and ("doy" in fields or {"month", "dom"} <= fields):
+            # the version names a day: file patterns may use calendar parts the version pattern itself does not spell out
+            names += [d for d in ("{quarter}", "{month}", "{dom}", "{doy}") if rp.PARTS["L." + d[1:-1]][0] not in fields] * 2
     out = []
     marker_no = first_marker
     for _ in range(count):
